@@ -765,6 +765,46 @@ def d_validate( ctx ):
             res.ok( dsrc, s, 'exact byte-count assert dominates the Set Attribute Single store' )
         else:
             res.bad( dsrc, s, s, 'a path reaches the Set Attribute Single store without the exact byte-count assert' )
+    # ... and element k of the stored list is decoded from the octets [ k*size, (k+1)*size ): evaluated on a 3-element, 4-octet sample
+    for s in ostores:
+        vname = dotted( s.value )
+        comps = [ d for d in old.defs.get( vname, [] ) if isinstance( d, ast.ListComp ) ] if vname else ( [ s.value ] if isinstance( s.value, ast.ListComp ) else [] )
+        if not comps:
+            raise AnalysisError( 'Object.request: decoding of the Set Attribute Single elements not recognised' )
+        comp = comps[0]
+        g = comp.generators[0]
+        names_ = { n_ for n_ in names_in( comp ) }
+        env = {}
+        for nm in names_:
+            for d in old.defs.get( nm, [] ):
+                if pmatch( d, '_a.parser.struct_calcsize' ) is not None:
+                    env[nm] = 4
+                elif is_call_to( d, 'bytearray', 'bytes' ):
+                    env[nm] = bytes( 12 )
+                elif isinstance( d, ast.Subscript ) and 'attribute' in attrs_in( d ):
+                    env[nm] = [ 0, 0, 0 ]
+        off = width = None
+        um = pmatch( comp.elt, 'struct.unpack( _fmt, _buf[_a:_b] )[0]' )
+        uf = pmatch( comp.elt, 'struct.unpack_from( _fmt, _buf, _o )[0]' )
+        try:
+            idx = fold( g.iter, env )
+            offs = []
+            for i_ in idx:
+                e2 = dict( env ); e2[g.target.id] = i_
+                if um is not None:
+                    offs.append(( fold( um['_a'], e2 ), fold( um['_b'], e2 ) - fold( um['_a'], e2 )))
+                elif uf is not None:
+                    offs.append(( fold( uf['_o'], e2 ), 4 ))
+                else:
+                    raise AnalysisError( 'Object.request: Set Attribute Single element decoder not recognised: %s' % norm_text( comp.elt ))
+        except NoFold as exc:
+            raise AnalysisError( 'Object.request: Set Attribute Single decoding outside the modelled subset: %s' % str( exc )[:80] )
+        res.cells += 3
+        if offs == [ ( 0, 4 ), ( 4, 4 ), ( 8, 4 ) ]:
+            res.ok( dsrc, comp, 'Set Attribute Single: element k is decoded from octets [ k*size, (k+1)*size )' )
+        else:
+            res.bad( dsrc, comp, 'Set Attribute Single decodes 3 x 4-octet elements from ( offset, width ) %s' % offs,
+                     'element k must come from octets k*size .. (k+1)*size: with the element index used as the byte offset an array of 2-, 4- or 8-octet values is stored as garbage although the reply says success' )
     return res
 
 
@@ -1270,6 +1310,25 @@ def p_act( ctx ):
         off = [ d for d in dstores if not ( csrc.parent.get( d ) is blk and isinstance( blk, ast.If )) ]
         res.bad( csrc, off[0] if off else runs[0], '%s rebound outside the block that starts the framing engine' % DATAATTR,
                  'a response that needs more than one received chunk is parsed by the engine started on the OLD object; __next__ then returns the fresh, empty one: the reply is lost although all its bytes arrived' )
+    # "no input available" is source.peek() is None - never the truthiness of the symbol: a pending 0x00 octet (the first byte of a NOP
+    # frame, of a zero session handle ...) is data
+    for s_src, f_ in (( csrc, nx ), ( src, fn ), ( src, src.get( 'enip_srv_udp' ))):
+        for n_ in ast.walk( f_ ):
+            tests_ = []
+            if isinstance( n_, ( ast.If, ast.While, ast.IfExp )):
+                tests_.append( n_.test )
+            elif isinstance( n_, ast.BoolOp ):
+                tests_ += n_.values
+            elif isinstance( n_, ast.UnaryOp ) and isinstance( n_.op, ast.Not ):
+                tests_.append( n_.operand )
+            for t_ in tests_:
+                if isinstance( t_, ast.Call ) and isinstance( t_.func, ast.Attribute ) and t_.func.attr == 'peek' and not t_.args:
+                    res.bad( s_src, t_, 'truthiness of %s decides whether input is pending' % norm_text( t_ ),
+                             'a pending zero octet is falsy: the receiver goes back to the socket instead of parsing it; a frame that starts with 0x00 (NOP) and is already buffered is withheld, and dropped if EOF follows', func=s_src.qualname_of( f_ ))
+    peeks = [ c_ for f_ in ( nx, fn ) for c_ in ast.walk( f_ ) if isinstance( c_, ast.Compare ) and isinstance( c_.left, ast.Call ) and isinstance( c_.left.func, ast.Attribute ) and c_.left.func.attr == 'peek'
+              and isinstance( c_.ops[0], ( ast.Is, ast.IsNot )) ]
+    if peeks:
+        res.ok( csrc, peeks[0], 'pending input is tested with source.peek() is [not] None (%d sites)' % len( peeks ))
     def engine_loop( x ):
         return isinstance( x, ast.For ) and dotted( x.iter ) in ( 'self.engine', 'engine' )
     tries = [ t for t in walk_no_nested( nx ) if isinstance( t, ast.Try ) and any( engine_loop( x ) for x in ast.walk( t )) ]
@@ -1923,6 +1982,23 @@ def d_refuse( ctx ):
                 res.bad( src, d.stmt, d.stmt, 'with a configured personality a path reaches the local dispatch without the route-path test' )
         else:
             res.bad( src, d.stmt, d.stmt, 'the local dispatch is reachable without passing the route-path acceptance test: a refused request still accesses tags' )
+    # the request's route path reaches the acceptance test as it was parsed: before the test it is only read ( truthiness, subscripts, `in`,
+    # **-unpacking into str.format ) - never handed to a function, which could canonicalise it in place ( device.port_link rewrites the dict
+    # it is given: a string link '10' becomes the integer 10 and then equals a configured 2/10 )
+    PURE = ( 'len', 'bool', 'str', 'repr', 'isinstance', 'list', 'tuple', 'dict', 'enumerate', 'zip', 'sorted', 'all', 'any' )
+    if RP and acc:
+        handed = []
+        for c_ in ast.walk( fn ):
+            if not isinstance( c_, ast.Call ) or call_name( c_ ).split( '.' )[-1] in PURE or call_name( c_ ).startswith( 'log.' ):
+                continue
+            if any( isinstance( x_, ast.Name ) and x_.id == RP for a_ in list( c_.args ) + [ k_.value for k_ in c_.keywords if k_.arg is not None ] for x_ in ast.walk( a_ )):
+                if getattr( c_, 'lineno', 0 ) < acc[0].stmt.lineno:
+                    handed.append( c_ )
+        if handed:
+            res.bad( src, handed[0], 'the request route path is handed to %s( ... ) before the acceptance test' % call_name( handed[0] ),
+                     'a callee may rewrite the segment it is given (port_link canonicalises in place): the acceptance test then compares a modified request, so a path that differs in link kind is accepted and the tag is accessed' )
+        else:
+            res.ok( src, acc[0].stmt, 'the request route path is only read before the acceptance test (never passed to a callee)' )
     # refusal -> status: covered by the outer try/except of UCMM.request (S-STATUS); the assert is inside it
     outer = [ t for t in fn.body if isinstance( t, ast.Try ) ]
     if outer and acc and any( acc[0].stmt in ast.walk( b ) for b in outer[0].body ):
@@ -1998,6 +2074,21 @@ def k_forwards( ctx ):
         res.ok( dsrc, stores[0], 'forward_open key = ( addr[0], addr[1], %s )' % shape[2] )
     else:
         res.bad( dsrc, stores[0], 'forwards key %s' % shape, 'connections must be recorded under ( peer host, peer port, O->T connection id )' )
+    # the id in the key is the one the reply carries: for a point-to-point O->T connection the TARGET picks the id and writes it back with
+    # fo.O_T = O_T.decoding - the key must be built after that store (else it holds the originator's proposal and no connected request
+    # ever finds its Forward Open)
+    fcfg = CFG( fo, may_raise=lambda n_: False )
+    wb = [ nd for nd in fcfg.nodes if nd.kind == 'stmt' and pmatch( nd.stmt, '_fo.O_T = _c.decoding' ) is not None ]
+    kd = [ nd for nd in fcfg.nodes if nd.kind == 'stmt' and isinstance( nd.stmt, ast.Assign ) and ( nd.stmt is stores[0] and isinstance( key, ast.Tuple )
+                                                                                                      or dotted( nd.stmt.targets[0] ) == dotted( key )) ]
+    if wb and kd:
+        dom = fcfg.dominators()
+        if all( fcfg.dominates( wb[0], k_, dom ) for k_ in kd ):
+            res.ok( dsrc, kd[0].stmt, 'the key is built after the target-chosen O->T connection id was written back ( fo.O_T = O_T.decoding )' )
+        else:
+            res.bad( dsrc, kd[0].stmt, 'forwards key built before `fo.O_T = O_T.decoding`', 'the key then carries the originator\'s proposed O->T id instead of the id chosen by the target and returned in the reply: connected requests (which carry the returned id) miss the table and are routed by their own path' )
+    elif not wb:
+        raise AnalysisError( 'forward_open: write-back of the O->T parameters ( fo.O_T = O_T.decoding ) not found' )
     # UCMM.request connected branch
     ur = usrc.get( 'UCMM.request' )
     calls = [ c for c in ast.walk( ur ) if isinstance( c, ast.Call ) and isinstance( c.func, ast.Attribute ) and c.func.attr == 'request'
@@ -2494,4 +2585,40 @@ def e_reply( ctx ):
         h = tries[0].handlers[0] if tries and tries[0].handlers else fn
         res.bad( src, h, 'process: failure of the CIP-level parse of a complete frame is re-raised',
                  'a complete, well-formed encapsulation frame carrying an unsupported command (or a payload the CIP parser rejects) is not answered at all: the exception propagates, the connection handler drops the session, and the client waits for a reply that never comes', func='process' )
+    return res
+
+
+# ---------------------------------------------------------------------------------------- C15: T-ROUTETEXT (textual route paths)
+
+@rule( 'T-ROUTETEXT', props=( 'C15', 'C12' ), floor=3 )
+def t_routetext( ctx ):
+    """device.parse_route_path: the '/'-separated components are consumed in pairs through ONE iterator and whatever does not form a complete,
+    valid port/link pair is kept as the trailer (then validated or rejected) - no component is dropped; port_link( 'p/l' ) splits at the
+    first '/' only"""
+    res = Result( 'T-ROUTETEXT' )
+    src = ctx.src( DEVICE )
+    fn = src.get( 'parse_route_path' )
+    M = Matcher()
+    it = M.find( fn, '_pls = iter( _rp.split( "/" ))' )
+    if it is None:
+        raise AnalysisError( 'parse_route_path: iterator over the "/"-separated components not found' )
+    PLS = M.name( '_pls' )
+    # zip( it, it ) pairs the components but silently drops an unmatched last one
+    zips = [ c for c in ast.walk( fn ) if is_call_to( c, 'zip' ) and sum( 1 for a in c.args if dotted( a ) == PLS ) >= 2 ]
+    if zips:
+        res.bad( src, zips[0], zips[0], 'zip over the same iterator takes the components in pairs but DROPS an unmatched last component: "1/0/2" then denotes just 1/0 and is accepted, instead of being rejected as malformed' )
+    else:
+        res.ok( src, it, 'components are not paired with zip( it, it )' )
+    pairs = [ c for c in ast.walk( fn ) if pmatch( c, 'list( itertools.islice( %s, 2 ))' % PLS ) is not None ]
+    tr = M.find( fn, '_trailer = "/".join( _pl + list( %s ))' % PLS )
+    if len( pairs ) >= 2 and tr is not None:
+        res.ok( src, pairs[0], 'pairs are taken with islice( it, 2 ); an incomplete or invalid pair and everything after it is re-joined as the trailer' )
+    elif not zips:
+        raise AnalysisError( 'parse_route_path: pairing idiom not recognised' )
+    # the trailer is not discarded
+    use = [ c for c in ast.walk( fn ) if isinstance( c, ast.If ) and pmatch( c.test, M.name( '_trailer' ) or 'trailer' ) is not None and any( isinstance( x, ast.Call ) and isinstance( x.func, ast.Attribute ) and x.func.attr == 'append' for b in c.body for x in ast.walk( b )) ]
+    if tr is not None and use:
+        res.ok( src, use[0], 'a non-empty trailer is appended to the result for validation by the caller\'s trailer parser' )
+    elif tr is not None:
+        res.bad( src, tr, 'trailer', 'components that do not form port/link pairs must be kept (and then validated or rejected), not dropped' )
     return res
